@@ -259,4 +259,6 @@ def run(tier):
     chk.floor('constants', sum(1 for o in chk.obls if o['rule'] == 'curve-constants'), 40)
     from .. import lints
     lints.length_is_boolean(chk, ['src/ec/'])
+    from .. import lints as _l
+    _l.limb_split_consistent(chk, ['src/ec/'])
     return chk.finish()
